@@ -116,9 +116,9 @@ class AddressFilter:
                 self._init_digit(pattern)
             elif "-" in pattern:
                 self._init_range(pattern)
-            self.range_to = self._adjust_range(self.range_to)
-            self.range_from = self._adjust_range(self.range_from)
             self._flip_range_if_necessary()
+            # only the upper end is clamped: a range starting above MAX_FREE is empty
+            self.range_to = self._adjust_range(self.range_to)
 
         def _init_wildcard(self) -> None:
             self.range_from = 0
@@ -132,7 +132,11 @@ class AddressFilter:
         def _init_range(self, pattern: str) -> None:
             (range_from, range_to) = pattern.split("-")
             self.range_from = int(range_from) if range_from else 0
-            self.range_to = int(range_to) if range_to else GroupAddress.MAX_FREE
+            self.range_to = (
+                int(range_to)
+                if range_to
+                else max(self.range_from, GroupAddress.MAX_FREE)
+            )
 
         @staticmethod
         def _adjust_range(digit: int) -> int:
